@@ -65,6 +65,10 @@ def ops(url, quoted, strip_fragment, default_protocol="https"):
                 "strip_fragment": strip_fragment,
             }
         )
+        # hypotheses of the path theorems (Model/PathHyp.lean: absPath, pathClean), evaluated
+        # by the model on the path of every parsed case; the implementation side answers
+        # [True, True]: a parsed path outside the hypotheses is a correspondence break
+        out.append({"f": "path_hyp", "path": p["path"]})
     return out
 
 
@@ -83,6 +87,7 @@ def impl(url, quoted, strip_fragment, default_protocol="https"):
             return [list(t), s]
 
         out.append(lib.guarded(both))
+        out.append([True, True])
     return out
 
 
